@@ -100,9 +100,14 @@ func genParserHistory(t *rapid.T, x *parserExec, o histOpts) {
 	if tiny {
 		nops += rapid.IntRange(0, 2*o.maxOps).Draw(t, "nopsTiny")
 	}
+	lastReset := -1
 	for i := 0; i < nops && !x.dead; i++ {
 		var op int
-		if i == 0 && rapid.IntRange(0, 9).Draw(t, "startFill") > 0 {
+		if i == 0 && o.resetDat > 0 && rapid.IntRange(0, 9).Draw(t, "startReset") == 0 {
+			// start with Reset(data): the buffer then owns an array sized
+			// for that data only
+			op = 8
+		} else if i == 0 && rapid.IntRange(0, 9).Draw(t, "startFill") > 0 {
 			// typical start: put data in
 			op = rapid.SampledFrom([]int{1, 0, 5}).Draw(t, "startOp")
 			if op == 5 && o.readFrom == 0 {
@@ -110,7 +115,7 @@ func genParserHistory(t *rapid.T, x *parserExec, o histOpts) {
 			}
 		} else {
 			op = weighted(t, "op", o.write, o.fill, o.parse, o.drain, o.shrink, o.readFrom,
-				o.parseNil, o.resetNil, o.resetDat, o.readAt, o.byteAt, o.peekAt, o.ntlPair)
+				o.parseNil, o.resetNil, o.resetDat, o.readAt, o.byteAt, o.peekAt, o.ntlPair, o.resetDat)
 		}
 		switch op {
 		case 0: // write a chunk
@@ -169,11 +174,41 @@ func genParserHistory(t *rapid.T, x *parserExec, o histOpts) {
 			if o.overReset && rapid.IntRange(0, 7).Draw(t, "resetOver") == 0 && cc.BufferSize < 1<<16 {
 				n = cc.BufferSize + rapid.IntRange(1, 3).Draw(t, "resetOverBy")
 			}
+			if lastReset >= 0 && rapid.IntRange(0, 2).Draw(t, "resetNear") == 0 {
+				// a length close to that of the previous Reset: the buffer
+				// reuses the array it allocated then
+				n = minInt(maxInt(lastReset+rapid.IntRange(-8, 8).Draw(t, "resetNearBy"), 0), cc.BufferSize)
+			}
 			cp := rapid.SampledFrom([]int{0, 6, 7, 8, 64, bsz + 100}).Draw(t, "resetCap")
+			lastReset = n
 			if tiny {
 				n = minInt(n, rapid.IntRange(0, 6).Draw(t, "resetLenTiny"))
+				lastReset = n
 			}
 			x.step(POp{Op: "reset", Data: src.next(n), Cap: cp, Fill: rapid.SampledFrom([]byte{0, 0xa5, 'a', 0xff}).Draw(t, "resetFill")})
+		case 13: // macro: Reset(d1); [parse]; Reset(d2) of nearly the same length; Parse
+			// The buffer copies or adopts d1 (depending on its spare
+			// capacity) and meets d2 with the array it got for d1.
+			caps := []int{0, 0, 0, 7, 7, 7, 8, 8, 6, 64}
+			max := minInt(cc.BufferSize, len(text)+8)
+			n1 := genSize(t, "rp1Len", max, 0, 1, max)
+			x.step(POp{Op: "reset", Data: src.next(n1), Cap: rapid.SampledFrom(caps).Draw(t, "rp1Cap")})
+			switch rapid.IntRange(0, 3).Draw(t, "rpBetween") {
+			case 0:
+				x.step(POp{Op: "parse", Flags: genFlags(t, o)})
+			case 1:
+				for k := x.unparsed() + 2; k > 0 && !x.dead; k-- {
+					un := x.unparsed()
+					x.step(POp{Op: "parse"})
+					if un == 0 {
+						break
+					}
+				}
+			}
+			n2 := minInt(maxInt(n1+rapid.IntRange(-8, 8).Draw(t, "rp2By"), 0), cc.BufferSize)
+			x.step(POp{Op: "reset", Data: src.next(n2), Cap: rapid.SampledFrom(caps).Draw(t, "rp2Cap")})
+			lastReset = n2
+			x.step(POp{Op: "parse", Flags: genFlags(t, o)})
 		case 9:
 			off := genOffset(t, x)
 			ln := genSize(t, "ralen", x.buffered()+3, 0, 1)
